@@ -56,6 +56,7 @@ def extract(repo="/repo", crate="kismet_cache", pkg_fingerprint="kismet-cache", 
             "KFACTS_OUT": out,
             "KFACTS_NONCE": nonce,
             "KFACTS_CRATE": crate,
+            "KFACTS_SHIMS": os.path.join(VERIF, "analysis", "shims.rs"),
             "CARGO_TARGET_DIR": target,
             "CARGO_NET_OFFLINE": "true",
         })
@@ -74,7 +75,12 @@ def extract(repo="/repo", crate="kismet_cache", pkg_fingerprint="kismet-cache", 
         os.unlink(out)
         if facts.get("nonce") != nonce:
             raise EngineError("stale fact file: nonce mismatch")
-        meta = {"extract_s": round(time.time() - t0, 2), "repo": repo, "bodies": len(facts["bodies"]),
+        # the analysis shims are bodies of the interpreter, not of the program: keep them apart
+        shim_keys = [k for k, b in facts["bodies"].items() if b["path"].startswith("__kverif_shims::")]
+        facts["shims"] = {k: facts["bodies"].pop(k) for k in shim_keys}
+        for k in [k for k in facts.get("adts", {}) if k.startswith("__kverif_shims::")]:
+            facts["adts"].pop(k)
+        meta = {"extract_s": round(time.time() - t0, 2), "repo": repo, "bodies": len(facts["bodies"]), "shims": len(facts["shims"]),
                 "cfg": facts.get("cfg"), "cfg_test": facts.get("cfg_test")}
         return facts, meta
     finally:
